@@ -327,7 +327,9 @@ class Check(PropertyCheck):
     rule = ("structured random values (scalars incl. huge ints / NaN / non-ASCII, nested list/tuple/dict/set/frozenset, "
             "dataclass instances, shared objects, mixed-type and colliding-int sets); correspondence: hash pre-image "
             "(tag + pickle bytes) of the real get_hash vs the Coq model under the regenerated configuration, bit-exact; "
-            "oracle: every spec hashed in 5 interpreter processes (PYTHONHASHSEED 0-4) x 3 insertion orders; "
+            "oracle: every spec hashed in 5 interpreter processes (PYTHONHASHSEED 0-4) x 3 insertion orders, by "
+            "TypeRegistry.get_hash and by RedunBackendDb.record_value (in-memory sqlite; the hash recorded for task "
+            "arguments/results), which must agree; "
             "non-trivial = contains a container; distinct by spec")
 
     # ---------------------------------------------------------------- translate
@@ -438,10 +440,18 @@ class Check(PropertyCheck):
     def classify(self, spec, results):
         """results: list of per-(process, order) outcomes of one spec -> None | (key, what)"""
         distinct = sorted(set(results))
+        sj = json.dumps(spec)[:240]
+        rec = [r for r in distinct if "|recorded:" in r]
+        if rec:
+            # never explained by the known classes: those make get_hash itself unstable, while the
+            # recorded hash (CallNode.value_hash / Argument.value_hash) still equals get_hash
+            return (f"recorded-hash-differs-from-get_hash:{sj}",
+                    "RedunBackendDb.record_value(v) (the hash recorded for task arguments/results) differs from "
+                    f"TypeRegistry.get_hash(v); {len(distinct)} distinct (get_hash|recorded) outcomes across "
+                    f"processes/insertion orders, e.g. {rec[0]}")
         if len(distinct) == 1:
             return None
         raises = [r for r in distinct if r.startswith("raise:")]
-        sj = json.dumps(spec)[:240]
         if raises:
             return (f"raise-inconsistent:{sj}", f"get_hash raises in some processes/orders only: {distinct[:4]}")
         if self.variant == "fixed":
@@ -483,7 +493,8 @@ class Check(PropertyCheck):
                 "kind": "unstable", "spec": sp, "hash_seeds": seeds, "orders": ORDERS,
                 "outcomes": {f"PYTHONHASHSEED={k[0]},order={k[1]}": res[k][i] for k in keys[:8]},
                 "how": "PYTHONPATH=/repo:/verif python -c 'from harness.props import c16_values as m; "
-                       "print(m.hash_all([SPEC],[None,1,2]))' under different PYTHONHASHSEED"}))
+                       "print(m.hash_all([SPEC],[None,1,2]))' under different PYTHONHASHSEED; an outcome "
+                       "'H|recorded:R' means get_hash(v) == H but backend.record_value(v) == R"}))
         self.stat("oracle", "specs", len(specs))
         self.stat("oracle", "processes", len(seeds))
         self.stat("oracle", "unstable_specs", n_unstable)
@@ -494,8 +505,10 @@ class Check(PropertyCheck):
         elif self.variant == "fixed":
             self.ob("oracle", "the refutation witnesses of the shipped variant are stable on the repaired code",
                     not any(unstable_w), str([w[0] for w, u in zip(WITNESSES, unstable_w) if u]))
+        self.findings.sort(key=lambda f: len(json.dumps(f.replay.get("spec", ""))))   # report the smallest input
         new = [f for f in self.findings if f.key not in (K_ITER, K_PARTIAL)]
-        self.ob("oracle", f"implementation oracle: {len(specs)} values x {len(keys)} (process, insertion order) pairs; "
+        self.ob("oracle", f"implementation oracle: {len(specs)} values x {len(keys)} (process, insertion order) pairs, get_hash and "
+                f"record_value (recorded hash == get_hash everywhere); "
                 f"{n_unstable} unstable, all within the known defect classes" if not new else
                 f"implementation oracle: {len(new)} value(s) hash differently outside the known defect classes",
                 not new, "; ".join(f.key for f in new[:5]))
@@ -507,8 +520,10 @@ class Check(PropertyCheck):
             res = run_children([r["spec"]], r.get("hash_seeds", HASH_SEEDS))
             outs = sorted({v[0] for v in res.values()})
             print("replay:", json.dumps(r["spec"])[:300], "->", outs[:6])
-            print("replay:", "still fails (different outcomes for one value)" if len(outs) > 1 else "holds now")
-            return 1 if len(outs) > 1 else 0
+            bad = len(outs) > 1 or any("|recorded:" in o for o in outs)
+            print("replay:", "still fails (different outcomes for one value, or recorded hash != get_hash)" if bad
+                  else "holds now")
+            return 1 if bad else 0
         print("replay: nothing to replay (no failing input was found); broken obligations:",
               json.dumps(doc.get("broken_obligations", []))[:3000])
         return 1
